@@ -61,6 +61,21 @@ func firstLine(s string) string {
 	return s
 }
 
+type appLogEntry struct {
+	c appCase
+	r AppRun
+}
+
+// appRunLog: every application run of the current execution (cases and results), so
+// that a violation can be confirmed on the un-instrumented binary before it is believed.
+var appRunLog []appLogEntry
+
+func logRun(c appCase, r AppRun) {
+	if len(appRunLog) < 64 {
+		appRunLog = append(appRunLog, appLogEntry{c, r})
+	}
+}
+
 type appEnv struct {
 	dir     string
 	capture *os.File
@@ -163,6 +178,7 @@ func runApp(c appCase) (res AppRun) {
 	if !theApp.inited {
 		fatalHarness("runApp before appInit")
 	}
+	defer func() { logRun(c, res) }()
 	writeFiles(c.Files)
 	for k, v := range c.Env {
 		os.Setenv(k, v)
@@ -216,6 +232,59 @@ func runApp(c appCase) (res AppRun) {
 		res.Err = err.Error()
 	}
 	return res
+}
+
+// tzName maps a fixed offset to an IANA name the real binary can be given through TZ.
+func tzName(offset int) (string, bool) {
+	if offset == 0 {
+		return "UTC", true
+	}
+	if offset%3600 != 0 {
+		return "", false
+	}
+	h := offset / 3600
+	name := fmt.Sprintf("Etc/GMT%+d", -h) // POSIX sign convention
+	if _, err := os.Stat("/usr/share/zoneinfo/" + name); err != nil {
+		return "", false
+	}
+	return name, true
+}
+
+// confirmRuns re-runs every logged application run of this execution on the
+// un-instrumented binary (fresh process each). It returns "" when the binary agrees
+// with every in-process observation (stdout equal, or equal modulo row order where map
+// iteration order is involved; same success/failure), else a description.
+func (w *Worker) confirmRuns() (string, int) {
+	if w.Bin == "" {
+		return "", 0
+	}
+	n := 0
+	for _, e := range appRunLog {
+		if e.c.Mod != nil {
+			continue // patched application object: not reproducible on the binary
+		}
+		tz, ok := tzName(e.c.TZ)
+		if !ok {
+			continue
+		}
+		b := w.runBin(e.c, tz)
+		n++
+		failed := e.r.Failed || e.r.Panic != ""
+		if (b.Code != 0) != failed {
+			return fmt.Sprintf("`%s`: in-process failed=%v (%s), real binary exit status %d (stderr %q)", e.c.shell(), failed, e.r.Err, b.Code, tailStr(b.Stderr, 300)), n
+		}
+		if b.Stdout != e.r.Stdout && sortedLines(b.Stdout) != sortedLines(e.r.Stdout) && !(e.r.AppOut != "" || e.r.Panic != "") {
+			return fmt.Sprintf("`%s`: in-process stdout\n%s\nreal binary stdout\n%s", e.c.shell(), tailStr(e.r.Stdout, 600), tailStr(b.Stdout, 600)), n
+		}
+	}
+	return "", n
+}
+
+func tailStr(s string, n int) string {
+	if len(s) <= n {
+		return s
+	}
+	return s[:n/2] + " ... " + s[len(s)-n/2:]
 }
 
 func trimStack(s string) string {
